@@ -157,35 +157,50 @@ def judge(case: dict, ob: dict) -> list:
                       "parse() decrypts with the OTP-derived key; the image was encrypted with the user key "
                       "(key source KEYSTORE, key store empty)"))
         return core.dedupe(V)
-    mism: list = []
-    if facts["kind"] == "ivt":
-        want_app = M.expected_app(pay)
-        got_app = pr["app"]
-    else:
-        lo, hi = (0x360, 0xC00) if facts["kind"] == "bca-dsc" else (0x3C0, 0x410)
-        want_app = app_al[:lo] + bytes(hi - lo) + app_al[hi:]
-        got_app = pr["app"][:lo] + bytes(hi - lo) + pr["app"][hi:] if len(pr["app"]) >= hi else pr["app"]
-    if got_app != want_app:
-        mism.append(("app", _relation(got_app, want_app)))
-    if facts["kind"] == "ivt":
-        for name in ("load_address", "image_version", "firmware_version", "image_subtype", "hwkey",
-                     "tz_type", "tz", "user_key"):
-            if name in exp and pr.get(name) != exp[name]:
-                mism.append((name, f"{name}: parsed {_sh(pr.get(name))}, configured {_sh(exp[name])}"))
-        if "key_store" in exp and (pr.get("key_store") or None) != (exp["key_store"] or None):
-            mism.append(("key_store", f"key store: parsed {_sh(pr.get('key_store'))}"))
-        if "reloc" in exp:
-            want = [{"dst": e["dst"], "data": e["data"], "flags": 1} for e in exp["reloc"]] or None
-            if pr.get("reloc") != want:
-                mism.append(("reloc", f"relocation entries: parsed {_sh(pr.get('reloc'))[:200]}"))
-        if "iv" in exp and r and "iv" in r and pr.get("iv") != r["iv"]:
-            mism.append(("iv", f"counter IV: parsed {_sh(pr.get('iv'))}, in the image {_sh(r['iv'])}"))
-        if exp.get("iv") and r and r.get("iv") != exp["iv"]:
-            V.append(("C01.emitted-iv", tag, "counter IV in the image is not the configured one"))
-        if r and "cert" in r and _cb_norm(pr.get("cert_block")) != _cb_norm(r["cert"]["bytes"]):
-            mism.append(("cert_block", "certificate block of the parsed object does not export to the bytes in the image"))
-        if "digest" in exp and exp["digest"] not in ("auto",) and pr.get("digest") != exp["digest"]:
-            mism.append(("digest", f"manifest digest: parsed {pr.get('digest')}, configured {exp['digest']}"))
+    def compare(pr: dict, with_key: bool = True) -> list:
+        mism: list = []
+        if facts["kind"] == "ivt":
+            want_app = M.expected_app(pay)
+            got_app = pr["app"]
+        else:
+            lo, hi = (0x360, 0xC00) if facts["kind"] == "bca-dsc" else (0x3C0, 0x410)
+            want_app = app_al[:lo] + bytes(hi - lo) + app_al[hi:]
+            got_app = pr["app"][:lo] + bytes(hi - lo) + pr["app"][hi:] if len(pr["app"]) >= hi else pr["app"]
+        if got_app != want_app:
+            mism.append(("app", _relation(got_app, want_app)))
+        if facts["kind"] == "ivt":
+            for name in ("load_address", "image_version", "firmware_version", "image_subtype", "hwkey",
+                         "tz_type", "tz") + (("user_key",) if with_key else ()):
+                if name in exp and pr.get(name) != exp[name]:
+                    mism.append((name, f"{name}: parsed {_sh(pr.get(name))}, configured {_sh(exp[name])}"))
+            if "key_store" in exp and (pr.get("key_store") or None) != (exp["key_store"] or None):
+                mism.append(("key_store", f"key store: parsed {_sh(pr.get('key_store'))}"))
+            if "reloc" in exp:
+                want = [{"dst": e["dst"], "data": e["data"], "flags": 1} for e in exp["reloc"]] or None
+                if pr.get("reloc") != want:
+                    mism.append(("reloc", f"relocation entries: parsed {_sh(pr.get('reloc'))[:200]}"))
+            if "iv" in exp and r and "iv" in r and pr.get("iv") != r["iv"]:
+                mism.append(("iv", f"counter IV: parsed {_sh(pr.get('iv'))}, in the image {_sh(r['iv'])}"))
+            if exp.get("iv") and r and r.get("iv") != exp["iv"]:
+                if with_key:
+                    V.append(("C01.emitted-iv", tag, "counter IV in the image is not the configured one"))
+            if r and "cert" in r and _cb_norm(pr.get("cert_block")) != _cb_norm(r["cert"]["bytes"]):
+                mism.append(("cert_block", "certificate block of the parsed object does not export to the bytes in the image"))
+            if "digest" in exp and exp["digest"] not in ("auto",) and pr.get("digest") != exp["digest"]:
+                mism.append(("digest", f"manifest digest: parsed {pr.get('digest')}, configured {exp['digest']}"))
+        return mism
+
+    mism = compare(pr)
+    # the second parse mode (dek not given / given although not needed): same expectations
+    if "parse2_error" in ob:
+        e = ob["parse2_error"]
+        V.append(("C01.parse-fails", f"{e['type']}@{e['where']};{ob['parse2_mode']}", f"[{tag}] " + e["msg"]))
+    elif "parsed2" in ob and set(ob["parsed2"]["mixins"]) == set(pr["mixins"]):
+        first = {n for n, _ in mism}
+        for name, detail in compare(ob["parsed2"], with_key=False):
+            if name not in first:  # what already fails in the main mode is reported there
+                clause = "C01.app-roundtrip" if name == "app" else "C01.settings-roundtrip"
+                V.append((clause, f"{_owner(tag)};{name};{ob['parse2_mode']}", detail))
     # differences of the re-exports
     rex: list = []
     if "reexport_error" in ob:
@@ -492,10 +507,19 @@ def lattice_cases(ctx, classes: dict, k: int, reps: int, lengths: list, groups: 
             if M.dev_facts(t)["kind"] != "ivt":
                 continue
             lat = M.dims_for(t)
-            for a in lat.enumerate(k, with_groups=groups):
-                if not a:
-                    continue
-                opts = {n: lat.by_name[n].values[i] for n, i in a.items()}
+            todo = [{n: lat.by_name[n].values[i] for n, i in a.items()}
+                    for a in lat.enumerate(k, with_groups=groups) if a]
+            # in every tier: the complete product of the small groups (key store x relocation table) and the
+            # flag product ({default, one value} over all dimensions that feed the IVT flag word), so that
+            # independent header bits are seen together
+            from vf.engine.lattice import Lattice
+
+            extra = [{n: lat.by_name[n].values[i] for n, i in a.items()}
+                     for a in Lattice(lat.dims, M.SMALL_GROUPS).group_products() if len(a) >= 2]
+            for opts in extra + M.flag_product(t):
+                if opts not in todo:
+                    todo.append(opts)
+            for opts in todo:
                 for L in lengths:
                     cases.append({"fam": fam, "rev": "latest", "tgt": tgt, "auth": auth, "len": L,
                                   "content": "seeded", "opts": opts, "seed": ctx.seed, "cls": key})
@@ -558,6 +582,10 @@ def run(ctx) -> None:
                 f"{'one representative' if quick else 'up to three representatives'} of every equivalence class; "
                 "CLI binding on every class representative. distinct/non-trivial = SHA-1 of the exported image "
                 "of a case the builder accepted")
+    ctx.rule += ("; in every tier the complete product key store x relocation table and the flag product ({default, one "
+                 "value} over hwkey, key store, relocation table, image version, sub-type, TrustZone) on the class "
+                 "representatives; MasterBootImage.parse is run in both modes of its optional dek argument (given / not "
+                 "given) for every image that is not encrypted, with the same expectations")
     ctx.rule += ("; alignment family: {custom TrustZone, relocation table, both} x application lengths 0x1F4/0x1F8/0x1FC/0x200 "
                  "on every class representative; object histories on every class representative: export, export again, "
                  "replace one member (app, trust_zone, key_store, app_table, hmac_key, cert_block) through its public "
